@@ -184,6 +184,9 @@ func (a *recAdapter) enqueueRaw(kind string, prio int) {
 		b = []byte(`{"id":"x","status":"Bogus","data":1}`)
 	case "foreign":
 		b = []byte(`{"id":"x","status":"Created","data":"a string, not an int"}`)
+	case "trailing":
+		// a well-formed entry followed by more bytes (a second entry glued on): not one JSON value, so not a job
+		b = []byte(`{"id":"x","status":"Created","data":9999}{"id":"y","status":"Created","data":9998}`)
 	default:
 		b = []byte(`{"id":"x","status":"Closed","data":0}`)
 	}
